@@ -74,7 +74,8 @@ Print Assumptions c17_created_reservation_allocate_once.
    ends the reconcile) and stamps every eviction call with the reservation it started with *)
 Theorem c17_reconcile_own_invariant : forall fx s f own, W s -> oinv own (sr s) ->
   oinv (own_after own (snd (reconcile fx s f))) (sr (fst (reconcile fx s f)))
-  /\ (forall x, In x (snd (reconcile fx s f)) -> is_evict x = true -> est x = stamp_of (sr s) (sp s)).
+  /\ (forall x, In x (snd (reconcile fx s f)) -> is_evict x = true ->
+      est x = stamp_of (sr s) (sp s) /\ eph x = puid_of (sp s)).
 Proof. exact reconcile_own. Qed.
 Print Assumptions c17_reconcile_own_invariant.
 
@@ -120,6 +121,11 @@ Theorem c17_trace_evict_unbound : forall fx ops s own, W s -> oinv own (sr s) ->
 Proof. exact trace_unbound. Qed.
 Print Assumptions c17_trace_evict_unbound.
 
+(* clause 12 for all histories: the pod handed to the evictor is the pod as read from the API at that instant *)
+Theorem c17_trace_evict_target : forall fx ops s, W s -> evict_target (obs_from fx s ops).
+Proof. exact trace_target. Qed.
+Print Assumptions c17_trace_evict_target.
+
 (* with no API errors anywhere in the history the job evicts at most once *)
 Theorem c17_evict_at_most_once : forall fx ops s, W s -> at_most_once ops (obs_from fx s ops).
 Proof. exact trace_once. Qed.
@@ -131,7 +137,7 @@ Theorem c17_prop_code_spec : forall j0 ops obs, prop_code j0 ops obs = 0 <-> C17
 Proof. exact prop_code_spec. Qed.
 Print Assumptions c17_prop_code_spec.
 
-(* clauses 1-7, 10, 11 (everything but the strict timeout clause 8) for all histories of the current variant *)
+(* clauses 1-7, 10, 11, 12 (everything but the strict timeout clause 8) for all histories of the current variant *)
 Theorem c17_core_all_histories : forall j0 ops, C17_core j0 ops (observe_fx true j0 ops).
 Proof. exact core_all_histories. Qed.
 Print Assumptions c17_core_all_histories.
